@@ -183,13 +183,36 @@ def run(loader, R, tier):
                     if n.get("k") == "return" and n.get("e")
                     and (n.get("l") or 0) > last_loop}
             nret = [0]
+            # locals computed from the coefficient carry it
+            carriers = {acc}
+            grew = True
+            while grew:
+                grew = False
+                for d in walk(f["body"]):
+                    if d.get("k") == "decl":
+                        for v in d.get("v", ()):
+                            if v["n"] not in carriers and any(
+                                    x.get("k") == "ref"
+                                    and x.get("n") in carriers
+                                    for x in walk(v.get("i") or {})):
+                                carriers.add(v["n"])
+                                grew = True
+                    elif d.get("k") == "op" and d.get("op") == "=" \
+                            and len(d.get("a", ())) == 2 \
+                            and d["a"][0].get("k") == "ref" \
+                            and d["a"][0].get("n") not in carriers \
+                            and any(x.get("k") == "ref"
+                                    and x.get("n") in carriers
+                                    for x in walk(d["a"][1])):
+                        carriers.add(d["a"][0]["n"])
+                        grew = True
 
             def cb4(n, guards, line, f=f, acc=acc, key=key, rets=rets,
-                    neutral=neutral, nret=nret):
+                    neutral=neutral, nret=nret, carriers=carriers):
                 if id(n) not in rets:
                     return
                 nret[0] += 1
-                if any(x.get("k") == "ref" and x.get("n") == acc
+                if any(x.get("k") == "ref" and x.get("n") in carriers
                        for x in walk(n)):
                     return
                 for g in _sym.flatten_guards(guards):
